@@ -2,6 +2,11 @@
 // `Writer` field by field over the infallible in-memory stand-in (Writer::new's header serialisation
 // through binrw is not in the cone), and the codec-oracle message transform harness.
 
+pub static mut CAPTURED: [u8; 16] = [0; 16];
+pub static mut CAPTURED_LEN: usize = 0;
+pub static mut CAPTURE_CALLS: u32 = 0;
+pub static mut CAPTURE_IS_MESSAGE: bool = false;
+
 pub struct MemW {
     pub written: usize,
     pub first: [u8; 16],
@@ -19,6 +24,17 @@ impl io::Write for MemW {
         Ok(data.len())
     }
     fn flush(&mut self) -> io::Result<()> {
+        Ok(())
+    }
+    // The default write_all loops over write() and constructs an io::Error (WriteZero) on a path
+    // that symbolic execution cannot prune when the slice length is symbolic; the drop glue of
+    // io::Error is recursive and made every query through this stand-in run out of memory. The
+    // stand-in never fails, so it says so directly (DESIGN 3.1 rule 3).
+    fn write_all(&mut self, data: &[u8]) -> io::Result<()> {
+        let _ = self.write(data);
+        Ok(())
+    }
+    fn write_fmt(&mut self, _: core::fmt::Arguments<'_>) -> io::Result<()> {
         Ok(())
     }
 }
@@ -42,6 +58,34 @@ impl<'a> Writer<'a> {
             timestamp: CappedString::from_raw(b""),
         });
         core::ptr::addr_of_mut!((*p).prev_tick).write(prev_tick);
+    }
+    /// stand-in for the chunk body path (Huffman coding into a 64 KiB buffer, chunk header, file
+    /// write) used by the typed-writer tick harnesses: the tick logic under test does not depend on it
+    pub(crate) fn verif_write_chunk_impl_stub(&mut self, _kind: DataKind, _data: Option<&[u8]>) -> Result<(), WriteError> {
+        Ok(())
+    }
+    /// capturing stand-in for the chunk body path: records what write_message hands to the chunk
+    /// writer (the real function takes `data.unwrap_or(&self.buffer2)`, compresses it and writes it
+    /// behind a chunk header; the message transform under test ends where this begins)
+    pub(crate) fn verif_write_chunk_impl_capture(&mut self, kind: DataKind, data: Option<&[u8]>) -> Result<(), WriteError> {
+        let d: &[u8] = data.unwrap_or(&self.buffer2);
+        unsafe {
+            CAPTURE_CALLS += 1;
+            CAPTURE_IS_MESSAGE = kind == DataKind::Message;
+            CAPTURED_LEN = d.len();
+            let mut i = 0;
+            while i < d.len() && i < 16 {
+                CAPTURED[i] = d[i];
+                i += 1;
+            }
+        }
+        Ok(())
+    }
+    pub(crate) fn verif_set_prev_tick(&mut self, t: Option<i32>) {
+        self.prev_tick = t;
+    }
+    pub(crate) fn verif_prev_tick(&self) -> Option<i32> {
+        self.prev_tick
     }
     pub(crate) fn verif_new(prev_tick: Option<i32>) -> Writer<'a> {
         Writer {
@@ -78,16 +122,25 @@ fn c15_write_tick_sequence() {
 }
 
 fn message_padding<const L: usize>() {
-    // Writer::write_message: what is handed to the compressor is the variable-length integer coding
+    // Writer::write_message: what is handed to the chunk writer is the variable-length integer coding
     // of the message's 4-byte little-endian groups, the last group zero-padded. Decoding those bytes
     // the way Reader::read_chunk's Message branch does (read_int until empty, to_le_bytes - loop
     // body transcribed here) returns the message zero-padded to a multiple of four bytes.
     let msg: [u8; L] = kani::any();
-    let mut w = Writer::verif_new(None);
-    assert!(w.write_message(&msg).is_ok());
-    let o = libtw2_huffman::Huffman::verif_oracle();
-    assert!(o.compress_calls == 1 && o.valid);
-    let plain = &o.plain[..o.plain_len];
+    // built in place in zero-initialised heap storage (two 64 KiB buffers; see demo_ddnet_writer.rs)
+    let w: &mut Writer<'static> = unsafe {
+        let p = std::alloc::alloc_zeroed(std::alloc::Layout::new::<Writer<'static>>()) as *mut Writer<'static>;
+        Writer::verif_init_in_place(p, None);
+        &mut *p
+    };
+    let wr = w.write_message(&msg);
+    let wrote = wr.is_ok();
+    core::mem::forget(wr);
+    assert!(wrote);
+    let (calls, is_msg, cap_len) = unsafe { (CAPTURE_CALLS, CAPTURE_IS_MESSAGE, CAPTURED_LEN) };
+    assert!(calls == 1 && is_msg && cap_len <= 16);
+    let captured: [u8; 16] = unsafe { CAPTURED };
+    let plain = &captured[..cap_len];
     let mut u = libtw2_packer::Unpacker::new(plain);
     let mut out = [0u8; 8];
     let mut len = 0;
@@ -115,30 +168,35 @@ fn message_padding<const L: usize>() {
         assert!(out[i] == if i < L { msg[i] } else { 0 });
         i += 1;
     }
-    core::mem::forget(w);
 }
 
 #[kani::proof]
-#[kani::unwind(8)]
-#[kani::stub(libtw2_huffman::Huffman::compress_impl_unsafe, libtw2_huffman::Huffman::verif_compress_oracle)]
+#[kani::unwind(12)]
+#[kani::stub(Writer::write_chunk_impl, Writer::verif_write_chunk_impl_capture)]
 fn c15_message_padding_len0() {
     message_padding::<0>();
 }
 #[kani::proof]
-#[kani::unwind(8)]
-#[kani::stub(libtw2_huffman::Huffman::compress_impl_unsafe, libtw2_huffman::Huffman::verif_compress_oracle)]
+#[kani::unwind(12)]
+#[kani::stub(Writer::write_chunk_impl, Writer::verif_write_chunk_impl_capture)]
 fn c15_message_padding_len3() {
     message_padding::<3>();
 }
 #[kani::proof]
-#[kani::unwind(8)]
-#[kani::stub(libtw2_huffman::Huffman::compress_impl_unsafe, libtw2_huffman::Huffman::verif_compress_oracle)]
+#[kani::unwind(12)]
+#[kani::stub(Writer::write_chunk_impl, Writer::verif_write_chunk_impl_capture)]
 fn c15_message_padding_len4() {
     message_padding::<4>();
 }
 #[kani::proof]
 #[kani::unwind(12)]
-#[kani::stub(libtw2_huffman::Huffman::compress_impl_unsafe, libtw2_huffman::Huffman::verif_compress_oracle)]
+#[kani::stub(Writer::write_chunk_impl, Writer::verif_write_chunk_impl_capture)]
 fn c15_message_padding_len6() {
     message_padding::<6>();
+}
+#[kani::proof]
+#[kani::unwind(12)]
+#[kani::stub(Writer::write_chunk_impl, Writer::verif_write_chunk_impl_capture)]
+fn c15_message_padding_len5() {
+    message_padding::<5>();
 }
